@@ -153,4 +153,11 @@ theorem C01_size_covers_present_fields_aux (env : Env) (fs : List Field) (r : In
     unfold ViewSpec.size at hs
     exact ⟨sizeFrom_ge _ _ _ hs, sizeFrom_covers _ _ _ hs⟩
 
+theorem constInt_eval' {env : Env} {e : Expr} {k : Int} (hk : constInt? e = some k) :
+    eval env e = some (.int k) := by
+  cases e with
+  | const v => cases v <;> simp_all [constInt?, eval]
+  | fold v e => cases v <;> simp_all [constInt?, eval]
+  | _ => simp [constInt?] at hk
+
 end Emboss.View
